@@ -52,7 +52,7 @@ pub fn run(seed: u64, n: usize, out: &Path, thorough: bool) -> anyhow::Result<()
     verif::set_sync_config(None);
     for i in 0..n {
         let w = World::new(seed.wrapping_add((i % 5) as u64), 1 + rng.below(3) as usize);
-        let nrep = 2 + rng.below(4) as usize;
+        let nrep = if i == 0 { 2 } else { 2 + rng.below(4) as usize };
         let ns = w.ns_id();
         let mut stores: Vec<TestStore> = Vec::new();
         let skews: Vec<u64> = (0..nrep).map(|_| rng.below(4)).collect();
@@ -64,20 +64,25 @@ pub fn run(seed: u64, n: usize, out: &Path, thorough: bool) -> anyhow::Result<()
         let mut evs: Vec<String> = Vec::new();
         let mut jevs: Vec<String> = Vec::new();
         let mut written: Vec<SignedEntry> = Vec::new();
-        let len = 10 + rng.below(if thorough { 70 } else { 35 }) as usize;
+        let len = if i == 0 { 2 } else { 10 + rng.below(if thorough { 70 } else { 35 }) as usize };
         let mut tick = 0u64;
         for _ in 0..len {
             tick += 1;
             let r = rng.below(nrep as u64) as usize;
             let now = T0 + skews[r] + tick / 6;
-            match rng.below(100) {
+            // corpus (case 0): the recorded twin-len finding — two replicas accept writes equal in
+            // (author, key, timestamp, hash) and different in len
+            let roll = if i == 0 { 0 } else { rng.below(100) };
+            let (r, now) = if i == 0 { (tick as usize - 1, T0 + 1) } else { (r, now) };
+            match roll {
                 0..=39 => {
                     // local write
                     let au = rng.below(w.authors.len() as u64) as usize;
                     let key = gen_key(&mut rng);
                     let hash = if rng.chance(1, 2) { HASH_A } else { HASH_B };
                     let len = if hash == HASH_A { 1 } else { 2 };
-                    let op = if rng.chance(1, 4) { Op::Delete { au, key: key.clone(), now } } else { Op::Insert { au, key: key.clone(), hash, len, now } };
+                    let (au, key, hash, len) = if i == 0 { (0usize, b"k".to_vec(), HASH_A, 1 + 2 * (r as u64)) } else { (au, key, hash, len) };
+                    let op = if i != 0 && rng.chance(1, 4) { Op::Delete { au, key: key.clone(), now } } else { Op::Insert { au, key: key.clone(), hash, len, now } };
                     verif::set_clock(now);
                     let res = {
                         let mut rep = stores[r].s().open_replica(&ns)?;
